@@ -31,7 +31,8 @@ impl GameTime {
         // return a time slice.
         if base_time <= 0.0 {
             if increment > 0.0 {
-                (increment * MAX_USAGE).round() as u128
+                // the increment is only credited after the move, so never plan beyond the clock itself
+                (increment * MAX_USAGE).round().min(clock.max(0.0)) as u128
             } else {
                 NO_TIME
             }
